@@ -66,6 +66,9 @@ def run(tier, seed, res, lean):
     for b in sl_bad[:3]:
         res.violations.append(Violation('c08-stacked-lru', b['msg'][:300], {'suite': 'S-CACHE/stacked', **b}))
     res.coverage['stacked_lru_calls'] = sl_calls
+    fc_calls, fc_bad = suite_cache.run_falsy_cached(seed)
+    for b in fc_bad[:3]:
+        res.violations.append(Violation('c08-falsy-value-not-a-hit', b['msg'][:400], {'suite': 'S-CACHE/falsy', **b}))
     # the id mappings of Join / GroupBy / Split are computed once per pipeline object: reading ids again, and a call of a field for one
     # entry, do not compute them again (S-REL, memo part)
     from .. import suite_rel
